@@ -24,7 +24,7 @@ ASSUMPTIONS_COMMON = [
 ]
 
 PROPS = {}
-HOOK_COMMITS = ["037ca8c"]  # + the meta_help.rs hook, appended below once committed
+HOOK_COMMITS = ["037ca8c"]
 WIP = "check not built yet in this framework (work in progress; see DESIGN.md section 6 for the plan)"
 NOT_APPLICABLE = {
     "C13": "console wrapping is str-slicing code outside Verus' subset and quantifies over all texts x widths 1..=300; Kani at <=4 characters says nothing about wrapping; no contract within reach decides it",
